@@ -38,6 +38,12 @@ TEXTS = {
                     'model (sequential histories over fragmented fill patterns across word and block boundaries, all capacities; '
                     'controlled schedules of concurrent inserters/deleters); reused offsets must read back absent in every column.',
             'note': _NOTE, 'technique': _T},
+    'C12': {'text': 'KeyCoherent (the key table is a bijection between keys and the live rows carrying them) is model-checked for 2 '
+                    'concurrent transactions running InsertKey / UpsertKey / DeleteKey step by step (lookup, reserve, key write, return) '
+                    'over 2 keys; KeyCheck / KeyEnd bind every real key call to its contract (fails iff ...). Sequential histories over 4 '
+                    'keys with several key operations per transaction, rollbacks, re-keying; controlled schedules parked between lookup '
+                    'and insert (key.checked); every dump probes every key of the alphabet with QueryKey.',
+            'note': _NOTE, 'technique': _T},
     'C15': {'text': 'StreamIds (distinct, non-zero, increasing per block in emission order) is model-checked under all interleavings '
                     'of 2 writers; in validated executions every in-latch logger event is bound to exactly one Apply action of a dirty '
                     'block of a committing transaction (rolled-back / empty transactions have no Apply), the id must exceed the '
